@@ -4,9 +4,10 @@ cd "$(dirname "${BASH_SOURCE[0]}")/.." || exit 1
 TIER="${1:-quick}"; shift
 IDS="$*"; [ -z "$IDS" ] && IDS=$(ls seeded | grep '^C')
 miss=0
-for id in $IDS; do
-  r=$(scripts/seed_eval.sh $id "$PWD/seeded/$id/patch.diff" $TIER 2>&1 | grep '^SEED' | tail -1)
-  echo "$r"
+for name in $IDS; do
+  id=${name%%-*} # seeded/C07-r2 is a second seeded change for C07
+  r=$(scripts/seed_eval.sh $id "$PWD/seeded/$name/patch.diff" $TIER 2>&1 | grep '^SEED' | tail -1)
+  echo "$name: $r"
   case "$r" in *CAUGHT*) ;; *) miss=1;; esac
 done
 exit $miss
